@@ -19,11 +19,15 @@
 (*   true   contents octet used for BOOLEAN TRUE (8.2.2: any non-zero)     *)
 (*   ext    "none" | "prim" | "cons" : an unknown extension addition is    *)
 (*          present at the extension insertion point of extensible types   *)
+(*   real   "canon" | "even" | "scaled" | "base8" | "base16" | "explen" |  *)
+(*          "decimal": other binary encodings of the same number (8.5.7:   *)
+(*          mantissa not odd, scaling factor F, base 8 / 16, exponent      *)
+(*          length given in a second octet) and the ISO 6093 NR3 text      *)
 (***************************************************************************)
 EXTENDS XER
 
 Canon == [len |-> "min", indef |-> "none", str |-> "prim", setrev |-> FALSE, defp |-> FALSE,
-          true |-> 255, ext |-> "none"]
+          true |-> 255, ext |-> "none", real |-> "canon"]
 
 \* ---- BER --------------------------------------------------------------------
 VarLen(st, n) ==
@@ -40,6 +44,32 @@ Wrap(st, tag, constructed, body, depth) ==
   Ident(tag, constructed) \o
   (IF constructed /\ UseIndef(st, depth) THEN <<128>> \o body \o <<0, 0>>
    ELSE VarLen(st, Len(body)) \o body)
+
+\* ---- REAL (X.690 8.5.7): value = S * N * 2^F * B^E ------------------------------
+RealParts(d) ==
+  LET bits == AllBits(d)
+      e == BitsToInt(SubSeq(bits, 2, 12))
+      frac == SubSeq(bits, 13, 64)
+      fracZero == \A i \in 1..52 : frac[i] = 0
+      mant0 == IF e = 0 THEN frac ELSE <<1>> \o frac
+      exp0 == IF e = 0 THEN -1074 ELSE e - 1075
+      mant1 == StripTrailingZeroBits(mant0)
+  IN [special |-> (e = 0 /\ fracZero) \/ e = 2047, sign |-> bits[1],
+      mant |-> StripLeadingZeroBits(mant1), exp |-> exp0 + (Len(mant0) - Len(mant1))]
+RealBin(sign, base, F, e, mbits) ==
+  LET eo == TwosC(IOfInt(e)) IN <<128 + 64 * sign + 16 * base + 4 * F + (Len(eo) - 1)>> \o eo \o PackLeft(mbits)
+RealVarContents(d, form) ==
+  LET p == RealParts(d) IN
+  IF p.special THEN RealContents(d)
+  ELSE CASE form = "even" -> RealBin(p.sign, 0, 0, p.exp - 3, p.mant \o <<0, 0, 0>>)
+         [] form = "scaled" -> RealBin(p.sign, 0, 2, p.exp - 2, p.mant)
+         [] form = "base8" -> LET q == TFloorDiv(p.exp, 3) IN RealBin(p.sign, 1, p.exp - 3 * q, q, p.mant)
+         [] form = "base16" -> LET q == TFloorDiv(p.exp, 4) IN RealBin(p.sign, 2, p.exp - 4 * q, q, p.mant)
+         [] form = "explen" -> LET eo == TwosC(IOfInt(p.exp))
+                               IN IF Len(eo) < 2 THEN RealContents(d)
+                                  ELSE <<128 + 64 * p.sign + 3, Len(eo)>> \o eo \o PackLeft(p.mant)
+         [] form = "decimal" -> IF d \in DOMAIN RealTexts THEN <<3>> \o RealTexts[d] ELSE RealContents(d)
+         [] OTHER -> RealContents(d)
 
 IsStringKind(T) == T.k \in {"OCTETS", "BITS", "STRING"}
 
@@ -97,6 +127,7 @@ BerV(env, T, v, impl, st, depth) ==
                              ConcatAll([i \in DOMAIN v |-> BerV(env, T.t, v[Len(v) + 1 - i], NoTag, st, depth + 1)]), depth)
     [] IsStringKind(T) /\ st.str # "prim" -> Wrap(st, TagOr(impl, T), TRUE, StringBody(st, T, v, depth), depth)
     [] T.k = "BOOLEAN" -> Wrap(st, TagOr(impl, T), FALSE, IF v THEN <<st.true>> ELSE <<0>>, depth)
+    [] T.k = "REAL" -> Wrap(st, TagOr(impl, T), FALSE, RealVarContents(v, st.real), depth)
     [] OTHER -> Wrap(st, TagOr(impl, T), FALSE, Contents(T, v), depth)
 
 BerVar(env, T, v, st) == BerV(env, T, v, NoTag, st, 0)
@@ -118,7 +149,13 @@ BerStyles == <<
   [Canon EXCEPT !.ext = "prim"],
   [Canon EXCEPT !.ext = "cons"],
   [Canon EXCEPT !.ext = "cons", !.indef = "all"],
-  [Canon EXCEPT !.indef = "all", !.len = "pad4", !.setrev = TRUE, !.defp = TRUE, !.true = 128] >>
+  [Canon EXCEPT !.indef = "all", !.len = "pad4", !.setrev = TRUE, !.defp = TRUE, !.true = 128],
+  [Canon EXCEPT !.real = "even"],
+  [Canon EXCEPT !.real = "scaled"],
+  [Canon EXCEPT !.real = "base8"],
+  [Canon EXCEPT !.real = "base16"],
+  [Canon EXCEPT !.real = "explen"],
+  [Canon EXCEPT !.real = "decimal"] >>
 
 \* does the style change anything for this type?  (avoids exporting duplicates of the canonical form)
 StyleName(i) == "ber" \o ToString(i)
